@@ -126,6 +126,8 @@ def apply(doc, devs):
             e["attrs"].append(["p:attr", "say &quot;hi&quot; &amp; &lt;go&gt; 'x'"])
             e["attrs"].append(["xml:lang", "e&quot;n"])
             e["attrs"].append(["p:data-type", "d"])
+            e["attrs"].append(["p:empty", ""])
+            e["attrs"].append(["xml:space", ""])
             e["attrs"].append(["p:v1.0_\u00e9", "v"])
         elif kind == "qattr_ancestor":
             if not any(x[0] == "p" for x in d["nsdecl"]):
@@ -186,7 +188,9 @@ def in_quantifier(d):
     return True
 
 
-def serialise(e):
+def serialise(e, comment="<!-- c -->"):
+    """comment: the text written for every comment position ("" leaves the comments out; "<!-- c -->\n   " puts layout
+    white space after each)"""
     q = (e["prefix"] + ":" if e["prefix"] else "") + e["name"]
     s = "<" + q
     for pf, uri in e["nsdecl"]:
@@ -197,11 +201,11 @@ def serialise(e):
         return s + "/>"
     s += ">" + (e["text"] or "")
     if 0 in e["comments"]:
-        s += "<!-- c -->"
+        s += comment
     for i, c in enumerate(e["children"]):
-        s += serialise(c) + (c["tail"] or "")
+        s += serialise(c, comment) + (c["tail"] or "")
         if (i + 1) in e["comments"]:
-            s += "<!-- c -->"
+            s += comment
     return s + "</" + q + ">"
 
 
@@ -349,6 +353,19 @@ def check(doc, case, acc=None):
     except Exception as e:  # noqa
         raise core.HarnessError(f"generator produced an ill-formed document {xml!r}: {e!r}")
     n_elements = len(xmlinfo.preorder(el))
+    # comments are dropped: in clean mode the same document with its comments followed by layout white space, and with its
+    # comments taken out, import as the same tree (the white space after a comment is layout like any other)
+    if any(e_["comments"] for _, e_ in walk(doc)) and "&who;" not in xml:
+        for collapse_ in (False, True):
+            try:
+                t_with = metapype_io.from_xml(serialise(doc, "<!-- c -->\n    "), clean=True, collapse=collapse_)
+                t_without = metapype_io.from_xml(serialise(doc, ""), clean=True, collapse=collapse_)
+                d_ = gtree.snap_diff(gtree.snap(t_with, with_id=False), gtree.snap(t_without, with_id=False))
+                if d_:
+                    bad("import_differs", {"without comments": d_[3], "at": d_[0]}, d_[2], field=d_[1], clean=True, collapse=collapse_,
+                        literal=False, comments="followed by layout white space")
+            except Exception as e:  # noqa
+                bad("import_raised", "both documents import", repr(e), clean=True, collapse=collapse_)
     for opts in OPTIONS:
         clean, collapse, literals = opts
         core.reset_store()
